@@ -236,6 +236,19 @@ func (cs *ContractSet) parseContractText(file, pkgName string, text string) erro
 			lastClause = &pending[len(pending)-1].text
 		}
 		switch word {
+		case "funcfield":
+			// funcfield TYPE.FIELD: contract of the functions stored in a function-typed struct field (like an interface
+			// method contract): calls through the field use it, every closure stored into the field is verified
+			// against it. Parameters are named as in the field's func type.
+			if err := flush(); err != nil {
+				return err
+			}
+			curLemma = nil
+			key := pkgName + ".field:" + strings.TrimSpace(rest)
+			cur = &Contract{Key: key, Header: l, Loops: map[int]*LoopSpec{}, File: file}
+			if _, dup := cs.ByKey[key]; !dup {
+				cs.ByKey[key] = cur
+			}
 		case "func":
 			if err := flush(); err != nil {
 				return err
